@@ -280,11 +280,11 @@ W = Named("c17_W", tableTag=STR, cls=STR)
 
 
 @specfn(List(W), L=List(W), gsub=BOOL, i=INT)
-def keep(L, gsub, i):
+def c17_keep(L, gsub, i):
     """the writers among L[:i] whose table is GSUB (gsub=True) / is not GSUB (gsub=False), in list order"""
     if i <= 0:
         return []
-    prev = keep(L, gsub, i - 1)
+    prev = c17_keep(L, gsub, i - 1)
     if (L[i - 1].tableTag == "GSUB") == gsub:
         return prev + [L[i - 1]]
     return prev
@@ -353,7 +353,7 @@ contract(
     modifies=["c17_Compiler.featureWriters"],
     ensures={
         # stable partition: all GSUB writers, in their order, then all the others, in their order
-        "gsub-first-stable": f"self.featureWriters == keep({_LW}, True, len({_LW})) + keep({_LW}, False, len({_LW}))",
+        "gsub-first-stable": f"self.featureWriters == c17_keep({_LW}, True, len({_LW})) + c17_keep({_LW}, False, len({_LW}))",
     },
     canaries={"order-kept": f"self.featureWriters == {_LW}"},
     locals={"gsubWriters": List(W), "others": List(W)},
@@ -361,7 +361,7 @@ contract(
         "for writer in featureWriters": Loop(
             index="i",
             seq="LW",
-            invariants={"g": "gsubWriters == keep(LW, True, i)", "o": "others == keep(LW, False, i)"},
+            invariants={"g": "gsubWriters == c17_keep(LW, True, i)", "o": "others == c17_keep(LW, False, i)"},
         )
     },
 )
